@@ -12,7 +12,11 @@ var (
 	profC01 = eng.ProfileFull("C01", map[string]int{"bulkHolders": 1})
 	profC02 = eng.ProfileFull("C02", map[string]int{"createBatch": 8, "mint": 10, "bridgeReceive": 6, "seal": 5, "addBridgeChain": 2})
 	profC04 = eng.ProfileFull("C04", map[string]int{"retire": 8, "send": 10, "take": 9, "buy": 10})
-	profC06 = eng.ProfileFull("C06", map[string]int{"sell": 14, "updSell": 12, "cancelSell": 6, "buy": 14, "block": 12, "removeDenom": 2, "addDenom": 2, "bulkOrders": 1})
+	profC06 = func() *eng.Profile {
+		p := eng.ProfileFull("C06", map[string]int{"sell": 14, "updSell": 12, "cancelSell": 6, "buy": 14, "block": 12, "removeDenom": 2, "addDenom": 2, "bulkOrders": 1})
+		p.VestingPct = 10
+		return p
+	}()
 	profC03 = func() *eng.Profile {
 		p := eng.ProfileFull("C03", map[string]int{"sendFromPool": 3, "burnRegen": 2, "buy": 12, "sell": 10, "bankSend": 5, "bulkOrders": 1})
 		p.VestingPct = 15
@@ -20,6 +24,7 @@ var (
 	}()
 	profC05 = withPrelude(eng.ProfileFull("C05", map[string]int{"put": 16, "take": 14, "bankSend": 8, "basketCreate": 5, "createBatch": 8, "bulkBasket": 1}),
 		"createClass", "createProject", "createBatch", "createBatch", "basketCreate", "basketCreate", "put", "put", "put", "bankSend", "block")
+	_ = func() int { profC05.VestingPct = 10; return 0 }()
 	profC13 = withPrelude(eng.ProfileFull("C13", map[string]int{"createBatch": 9, "mint": 9, "bridgeReceive": 12, "bridge": 9, "addBridgeChain": 3, "removeBridgeChain": 2}),
 		"createClass", "addBridgeChain", "bridgeReceive", "bridgeReceive", "createProject", "createBatch", "mint", "bridge", "block")
 	profC14 = func() *eng.Profile {
@@ -99,6 +104,7 @@ var profC18 = func() *eng.Profile {
 		"addDenom": 3, "removeDenom": 2, "createClass": 6, "basketCreate": 6, "createProject": 2, "createBatch": 3, "sell": 3, "buy": 4, "put": 2, "take": 2, "block": 3, "faucet": 1, "addCreditType": 1, "speculate": 3},
 		Prelude: []string{"createClass", "createProject", "createBatch"}, RemapAny: true}
 	p.AllowZeroFeeGenesis = true
+	p.VestingPct = 10
 	p.AllowEmptyDenoms = true
 	p.HostilePct = 30
 	p.GenesisFeeRates = []string{"", "0", "0.0", "0.000001", "0.01", "0.1", "1", "1.5", "2", "0.3333333333333333333333333333333333", "0.2999999999999999999999999999999999995", "1e-2"}
